@@ -45,6 +45,8 @@ fn real_main() -> i32 {
             let mut e = caoverif::e_lifecycle::LifecycleEngine { property: opts.x("property").unwrap_or("c17").to_string() };
             run_engine(&mut e, &opts)
         }
+        "laws" => run_engine(&mut caoverif::e_laws::LawsEngine {}, &opts),
+        "trace" => run_engine(&mut caoverif::e_trace::TraceEngine {}, &opts),
         other => {
             eprintln!("unknown engine {other}");
             64
